@@ -442,11 +442,19 @@ class Check:
                     finally:
                         tm.cancel()
                     done = 0
-                    for line in out.splitlines():
+                    parts = out.split("\n@@VERIF@@ ")
+                    # parts[k] = <output of case k> ... ; parts[k+1] starts with the record of case k
+                    for k in range(1, len(parts)):
+                        rec, _, rest = parts[k].partition("\n")
                         try:
-                            r = json.loads(line)
+                            r = json.loads(rec)
                         except Exception:
-                            continue
+                            break
+                        prev = parts[k - 1]
+                        if k - 1 > 0:
+                            prev = prev.partition("\n")[2]
+                        if prev:
+                            r["res"].append({"out": prev})
                         results[r["id"]] = r["res"]
                         done += 1
                     if done < len(ids):
